@@ -711,7 +711,11 @@ func (e *Enc) mergeStates(hint string, sts []*State, conds []string) *State {
 	if sameHist {
 		n.epoch = sts[0].epoch
 	} else {
-		n.mergeOf = append([]*State(nil), sts...)
+		// snapshots, not the live objects: callers overwrite a state object in place (`*st = *m` after an inlined
+		// call or a deferred call), which would otherwise make a state its own ancestor
+		for _, s := range sts {
+			n.mergeOf = append(n.mergeOf, s.clone())
+		}
 		n.mergeConds = append([]string(nil), conds...)
 	}
 	keys := map[string]bool{}
